@@ -122,6 +122,17 @@ CHECKS = {
             "of all four types preserve type, data, grids and axes. 6 KNOWN findings: batch-reordering ops keep the input grid order. Does not "
             "decide: the open-ended space of all torch functions, pickling (storage protocol).",
             "DESIGN.md 4/C19"),
+    "C12": (True, "E5(T5)",
+            "abstract interpretation of the finite-difference / B-spline derivative code and of the Jacobian, divergence, curl and Lie-bracket "
+            "assembly over a polynomial-ring domain, on fields with symbolic polynomial coefficients and symbolic anisotropic spacing",
+            "Decides for D in {2,3}: every finite-difference mode (forward, backward, central, forward_central_backward, prewitt, sobel) returns "
+            "A_cj for affine fields at interior samples with per-axis and per-batch spacing; stencil offsets/steps/dilation on symbolic "
+            "samples; second derivatives of quadratic fields (interior) and mixed-derivative symmetry; key subsets equal the full request; "
+            "jacobian_matrix / jacobian_det (with/without identity) / divergence / curl / lie_bracket equal their analytic values on affine "
+            "fields, including in-place arithmetic on the derivative dictionary (storage-faithful model); B-spline mode returns slope/spacing, "
+            "2q/h^2 and q_jk/(h_j h_k) per axis for strides 1, 2. Does not decide: gaussian mode (exp kernels), float accuracy, sizes beyond "
+            "the small grids used.",
+            "DESIGN.md 4/C12"),
 }
 
 NOT_BUILT_REASON = "static check for this property is designed (DESIGN.md section 4) but not yet built in this revision"
